@@ -53,8 +53,8 @@ PROPS = {
         technique="Lean 4 proof (non-interference for every schedule by induction, extracted storage kinds) + systematic one-preemption schedule enumeration on real threads",
     ),
     "C07": dict(
-        text="Kernel-checked theorems about the wrapper's control flow and name generation: _gensym terminates and is fresh for every finite name set; every identifier the synthesised def uses is distinct from every other, from all parameter names and from the function name; on a binding new-style call the body starts exactly once when the parameter pass accepts and not at all when it rejects; a non-binding call raises before any context is opened; the body's own exception passes through; the source calls the wrapped function at exactly one place. On the real code: generated signatures over all five parameter kinds, defaults, colliding names, def / lambda / async def, all descriptor kinds, both typecheckers: call counter, identity of arguments and result, exception class, metadata, inspect.signature, and the generated identifier scope against the model.",
-        note="Metadata (__name__, __qualname__, __doc__, __module__, signature, descriptor kind) is functools.wraps / descriptor unwrapping and is evaluated on the implementation only. Known finding F4 (async def with a return annotation) is reported as KNOWN-FINDING.",
+        text="Kernel-checked theorems about the wrapper's control flow and name generation: _gensym terminates and is fresh for every finite name set; every identifier the synthesised def uses is distinct from every other, from all parameter names and from the function name; the parameter list rendered for the synthesised def (positional-only group and '/', positional-or-keyword group, '*name' or bare '*', keyword-only group plus the fresh output parameter, '**name'), read back by a model of Python's parameter-list grammar, is the original signature with names, kinds and default-presence in order plus that one keyword-only parameter (C07_same_signature); on a binding new-style call the body starts exactly once when the parameter pass accepts and not at all when it rejects; a non-binding call raises before any context is opened; the body's own exception passes through; the source calls the wrapped function at exactly one place. On the real code: generated signatures over all five parameter kinds, defaults, colliding names, def / lambda / async def, all descriptor kinds, both typecheckers: call counter, identity of arguments and result, exception class, metadata, inspect.signature, the rendered parameter list piece by piece against the model's renderer, and the generated identifier scope against the model.",
+        note="Python's bind() is not modelled (equal signatures are what is proved). Metadata (__name__, __qualname__, __doc__, __module__, signature, descriptor kind) is functools.wraps / descriptor unwrapping and is evaluated on the implementation only. Known finding F4 (async def with a return annotation) is reported as KNOWN-FINDING.",
         technique="Lean 4 proof (pigeonhole freshness of gensym, wrapper control flow) + generated-signature differential run",
     ),
     "C13": dict(
